@@ -179,7 +179,7 @@ func Main() {
 			continue
 		}
 		n := 1
-		if c := t.Tags["class"]; c == "sink" || c == "multiroot" {
+		if c := t.Tags["class"]; (c == "sink" || c == "multiroot") && *prop != "DIGEST" {
 			n = 8
 		}
 		for p := 0; p < n; p++ {
